@@ -454,12 +454,31 @@ Fixpoint insert_time (b : list Z) (l : list (list Z)) : list (list Z) :=
   | [] => [b]
   | x :: t => if zlist_eqb b x then l else if zlist_ltb b x then b :: l else x :: insert_time b t
   end.
+(* %v of the cells of a bucket, for the identity aggregation (ints, text, booleans and nil only: the menu's
+   identity function is used on such columns) *)
+Definition render_plain (c : cell) : str :=
+  match c with
+  | CNil => s_nil
+  | CI _ z => dec_Z z
+  | CS s => s
+  | CB true => s_true
+  | CB false => s_false
+  | _ => qmarks
+  end.
+Fixpoint join_sp (l : list str) : str :=
+  match l with
+  | [] => []
+  | [s] => s
+  | s :: t => s ++ [32%N] ++ join_sp t
+  end.
+Definition show_cells (x : list cell) : str := [91%N] ++ join_sp (map render_plain x) ++ [93%N].
 Definition resample_fn (id : nat) (x : list cell) : cell :=
   match id with
   | 0%nat => CI KInt (Z.of_nat (length x))
   | 1%nat => match x with c :: _ => c | [] => CNil end
   | 2%nat => last x CNil
-  | _ => CI KInt (fold_left (fun s c => match c with CI _ z => s + z | _ => s end) x 0)
+  | 3%nat => CI KInt (fold_left (fun s c => match c with CI _ z => s + z | _ => s end) x 0)
+  | _ => CS (show_cells x)     (* identity: the harness prints the returned slice with %v *)
   end.
 Definition time_of (c : cell) : option (list Z) := match c with CT t => Some t | _ => None end.
 Definition op_resample (f : frame) (tcol : str) (freq : str) (agg : nat) : out frame :=
